@@ -387,6 +387,10 @@ func (x *Explorer) runPath(solver *smt.Solver, prefix []Decision) {
 		x.mu.Lock()
 		take := (x.res.Paths < 3 || (x.res.Paths+x.cfg.Seed)%x.cfg.SampleEvery == 0) && len(x.res.Samples) < 64
 		x.mu.Unlock()
+		// debugging aid: cross-validate exactly the path with this decision string
+		if want := os.Getenv("GOSMT_SAMPLE_DECISIONS"); want != "" {
+			take = decString(in.trace) == want
+		}
 		if take {
 			if solver.Check() == smt.Sat {
 				model := solver.Model(in.ctx.Vars)
